@@ -24,6 +24,7 @@ EXPLANATION = (
     "tol_mesh. R5 coherence dataflow (rules/meshflow.py): every read of self.mesh_size / OS[mesh_size] in the methods reachable from optimize "
     "sees multiplier ** exponent computed after the last store to the exponent, on all paths (method summaries, flag-conditional coherence)."
     " Decides the update structure on all paths, for every option setting except the tabled experimental option."
+    " R4 also: OS[tol_mesh] = multiplier ** ceil(log(tol_mesh)/log(multiplier)) as a sympy identity (the smallest mesh level >= the user's tolerance). R6 the poll step decides the noise mode from the run-time level (success judged on the GP estimate)."
 )
 
 EXP = "mesh_size_integer"
